@@ -656,7 +656,9 @@ impl<TActor: ThreadLocalActor> ThreadLocalActorRuntime<TActor> {
         handler: &TActor,
         arguments: TActor::Arguments,
     ) -> Result<Result<TActor::State, ActorProcessingErr>, SpawnErr> {
-        let future = handler.pre_start(myself, arguments);
+        // call the callback inside the caught future: a callback which panics before
+        // returning its future must be contained like one which panics when polled
+        let future = async move { handler.pre_start(myself, arguments).await };
         futures::FutureExt::catch_unwind(AssertUnwindSafe(future))
             .await
             .map_err(|err| SpawnErr::StartupFailed(get_panic_string(err)))
@@ -667,7 +669,9 @@ impl<TActor: ThreadLocalActor> ThreadLocalActorRuntime<TActor> {
         handler: &TActor,
         state: &mut TActor::State,
     ) -> Result<Result<(), ActorProcessingErr>, ActorErr> {
-        let future = handler.post_start(myself, state);
+        // call the callback inside the caught future: a callback which panics before
+        // returning its future must be contained like one which panics when polled
+        let future = async move { handler.post_start(myself, state).await };
         futures::FutureExt::catch_unwind(AssertUnwindSafe(future))
             .await
             .map_err(|err| ActorErr::Failed(get_panic_string(err)))
@@ -678,7 +682,9 @@ impl<TActor: ThreadLocalActor> ThreadLocalActorRuntime<TActor> {
         handler: &TActor,
         state: &mut TActor::State,
     ) -> Result<Result<(), ActorProcessingErr>, ActorErr> {
-        let future = handler.post_stop(myself, state);
+        // call the callback inside the caught future: a callback which panics before
+        // returning its future must be contained like one which panics when polled
+        let future = async move { handler.post_stop(myself, state).await };
         futures::FutureExt::catch_unwind(AssertUnwindSafe(future))
             .await
             .map_err(|err| ActorErr::Failed(get_panic_string(err)))
